@@ -96,6 +96,24 @@ def cases(rng, quick, gr):
     for k in range(6):
         yield {"tag": "index-next-to-parameters", "text": HDR + DECLS + "float array PA[2, 3] =\n    1.5, {a}, 3.0\n    4.0, 5.5, {b}\nfloat array PB =\n    {a}, 2, {b}, 4, {a}, 6\n"
                "Op(PA[0], PA[2], PA[3], PA[4], PA[4] * 2 + PA[3] ** 2, PB[1], PB[3] + PB[5], PB[%d] + 0) | 0\n" % (1 + 2 * (k % 3))}
+    # (5c) whole-array arithmetic between two reads of the same elements (array arithmetic itself is outside the model: the two
+    #      reads are compared with each other and with the script that lacks the array statement)
+    for opx in ["FA - FB", "FA + FB", "-FB", "FA * FB", "FB - FA", "FA - FB - FB", "-FB + FA"]:
+        head = HDR + "float array FA =\n    5.5, 2.5\n    7, 9\nfloat array FB =\n    1.5, 0.5\n    3, 6.5\n"
+        reads = "Op(FB[1] * 2 + 1, FA[3] - FB[3], FB[2] / 4, pi * FB[0], FA[0]) | 0\n"
+        a = head + reads + "Arr(%s) | 1\n" % opx + reads
+        b = head + reads + reads
+
+        def pred(impl, a=a, b=b, opx=opx):
+            try:
+                pa, pb = impl.loads(a), impl.loads(b)
+            except Exception:  # noqa: BLE001
+                return None          # this form of array arithmetic is not supported at all
+            x, y, z = pa.operations[0]["args"], pa.operations[2]["args"], pb.operations[1]["args"]
+            if [complex(u) for u in x] != [complex(u) for u in y] or [complex(u) for u in y] != [complex(u) for u in z]:
+                return "reading the same array elements before and after evaluating %s gives %r then %r" % (opx, x, y)
+            return None
+        yield {"tag": "reads-around-array-arithmetic", "pred": pred, "key": a, "input": {"check": "pred", "tag": "reads-around-array-arithmetic"}}
     # (5b) a variable / array declared again after it has been used: later uses see the NEW value
     for k in range(6):
         yield {"tag": "redeclared", "text": HDR + "int array A =\n    1, 2, 3\nfloat y = A[%d] * 2\nint array A =\n    10, 20, 30, 40, 50\nOp(A[%d], y, A[4] - A[%d]) | A[0] - 10\n" % (k % 3, k % 5, k % 3)}
